@@ -641,6 +641,145 @@ func genC11(repo string) (string, error) {
 	}
 	sb.WriteString("def dataLoadFirstStmt : String := " + strconv.Quote(dlFirst) + "\n")
 	sb.WriteString("def dataLoadOtherPendingStmts : List String := " + LeanStrList(dlRest) + "\n")
+	// ---- the pending-load protocol around it (round 9): who adds, who decrements, who tests
+	deferredDec := dlFirst == "defer op.executeCtx.PendingDataLoadTasks.Dec()" && len(dlRest) == 0
+	fmt.Fprintf(&sb, "def dataLoadDecDeferred : Bool := %v\n", deferredDec)
+	var dlReturns []string // the return statements of dataLoad.Execute with the condition they sit under
+	if fd := FindFunc(dlf, "dataLoad", "Execute"); fd != nil && fd.Body != nil {
+		for _, st := range fd.Body.List {
+			switch x := st.(type) {
+			case *ast.IfStmt:
+				for _, b := range x.Body.List {
+					if _, ok := b.(*ast.ReturnStmt); ok {
+						dlReturns = append(dlReturns, "if "+c11Text(x.Cond)+" => "+c11Text(b))
+					}
+				}
+			case *ast.ReturnStmt:
+				dlReturns = append(dlReturns, c11Text(x))
+			}
+		}
+	}
+	sb.WriteString("def dataLoadReturns : List String := " + LeanStrList(dlReturns) + "\n")
+	_, lrf, err := ParseFile(repo, "query/operator/leaf_reduce.go")
+	if err != nil {
+		return "", err
+	}
+	lrGuard := ""
+	var lrBody, lrRest []string
+	if fd := FindFunc(lrf, "leafReduce", "Execute"); fd != nil && fd.Body != nil {
+		for i, st := range fd.Body.List {
+			if is, ok := st.(*ast.IfStmt); ok && i == 0 {
+				lrGuard = c11Text(is.Cond)
+				for _, b := range is.Body.List {
+					lrBody = append(lrBody, c11Text(b))
+				}
+				if is.Else != nil {
+					lrRest = append(lrRest, "else")
+				}
+			} else {
+				lrRest = append(lrRest, c11Text(st))
+			}
+		}
+	}
+	sb.WriteString("def leafReduceGuard : String := " + strconv.Quote(lrGuard) + "\n")
+	sb.WriteString("def leafReduceGuarded : List String := " + LeanStrList(lrBody) + "\n")
+	sb.WriteString("def leafReduceRest : List String := " + LeanStrList(lrRest) + "\n")
+	_, gsf, err := ParseFile(repo, "query/stage/grouping_stage.go")
+	if err != nil {
+		return "", err
+	}
+	var gsLoop []string
+	if fd := FindFunc(gsf, "groupingStage", "NextStages"); fd != nil && fd.Body != nil {
+		for _, st := range fd.Body.List {
+			if rs, ok := st.(*ast.RangeStmt); ok {
+				gsLoop = append(gsLoop, "for "+c11Text(rs.Key)+" := range "+c11Text(rs.X))
+				for _, b := range rs.Body.List {
+					gsLoop = append(gsLoop, c11Text(b))
+				}
+			}
+		}
+	}
+	sb.WriteString("def groupingNextStagesLoop : List String := " + LeanStrList(gsLoop) + "\n")
+	_, dlsf, err := ParseFile(repo, "query/stage/data_load_stage.go")
+	if err != nil {
+		return "", err
+	}
+	var planKids []string // the AddChild statements of dataLoadStage.Plan, in order, with their loop
+	if fd := FindFunc(dlsf, "dataLoadStage", "Plan"); fd != nil && fd.Body != nil {
+		for _, st := range fd.Body.List {
+			switch x := st.(type) {
+			case *ast.RangeStmt:
+				for _, b := range x.Body.List {
+					if t := c11Text(b); strings.Contains(t, "AddChild") {
+						planKids = append(planKids, "for "+c11Text(x.Key)+" := range "+c11Text(x.X)+" => "+c11OneLine(t))
+					}
+				}
+			default:
+				if t := c11Text(st); strings.Contains(t, "AddChild") {
+					planKids = append(planKids, c11OneLine(t))
+				}
+			}
+		}
+	}
+	sb.WriteString("def dataLoadStagePlanChildren : List String := " + LeanStrList(planKids) + "\n")
+	// ---- fault paths (round 9): dataFamily.Flush keeps the immutable memory database when the flush
+	// failed; fileFilter hands a reader's open / filter error to the query
+	var flushTail []string // statements of Flush from the flushMemoryDatabase call to the reset, one line each
+	if fd := FindFunc(df, "dataFamily", "Flush"); fd != nil {
+		ast.Inspect(fd, func(n ast.Node) bool {
+			bs, ok := n.(*ast.BlockStmt)
+			if !ok {
+				return true
+			}
+			at := -1
+			for i, st := range bs.List {
+				t := c11Text(st)
+				if strings.HasPrefix(t, "if err := f.flushMemoryDatabase(") || strings.HasPrefix(t, "err := f.flushMemoryDatabase(") ||
+					strings.HasPrefix(t, "err = f.flushMemoryDatabase(") || strings.HasPrefix(t, "_ = f.flushMemoryDatabase(") ||
+					strings.HasPrefix(t, "f.flushMemoryDatabase(") {
+					at = i
+					break
+				}
+			}
+			if at < 0 {
+				return true
+			}
+			for _, st := range bs.List[at:] {
+				t := c11Text(st)
+				if strings.Contains(t, "flushMemoryDatabase") || strings.Contains(t, "immutableMemDB") || strings.Contains(t, "return") {
+					flushTail = append(flushTail, t)
+				}
+			}
+			return false
+		})
+	}
+	sb.WriteString("def familyFlushAfterWrite : List String := " + LeanStrList(flushTail) + "\n")
+	flushGuard := ""
+	if fd := FindFunc(df, "dataFamily", "Flush"); fd != nil {
+		ast.Inspect(fd, func(n ast.Node) bool {
+			if is, ok := n.(*ast.IfStmt); ok && flushGuard == "" && strings.Contains(c11Text(is.Cond), "f.immutableMemDB != nil") {
+				flushGuard = c11Text(is.Cond)
+			}
+			return true
+		})
+	}
+	sb.WriteString("def familyFlushSkipGuard : String := " + strconv.Quote(flushGuard) + "\n")
+	var ffErr []string // every `if err...` of fileFilter with what its body does first / last
+	if fd := FindFunc(df, "dataFamily", "fileFilter"); fd != nil {
+		ast.Inspect(fd.Body, func(n ast.Node) bool {
+			if _, ok := n.(*ast.FuncLit); ok {
+				return false
+			}
+			if is, ok := n.(*ast.IfStmt); ok && strings.Contains(c11Text(is.Cond), "err") && len(is.Body.List) > 0 {
+				ffErr = append(ffErr, "if "+c11Text(is.Cond)+" => "+c11Text(is.Body.List[len(is.Body.List)-1]))
+			}
+			return true
+		})
+		if n := len(fd.Body.List); n > 0 {
+			ffErr = append(ffErr, c11Text(fd.Body.List[n-1]))
+		}
+	}
+	sb.WriteString("def familyFileFilterErrPaths : List String := " + LeanStrList(ffErr) + "\n")
 	// ---- month calculator: CalcFamily ignores the segment time
 	_, ic, err := ParseFile(repo, "pkg/timeutil/interval_calculator.go")
 	if err != nil {
@@ -709,6 +848,11 @@ func genC11(repo string) (string, error) {
 	sgc := c11CallSeq(FindFunc(sg, "segment", "GetDataFamilies"))
 	flag("fixMonthFamilyTime", has(sgc, "calc.CalcFamilyTime") && !has(sgc, "calc.CalcFamilyStartTime"))
 	return sb.String(), nil
+}
+
+// c11OneLine joins a multi-line statement text into one line.
+func c11OneLine(t string) string {
+	return strings.Join(strings.Fields(t), " ")
 }
 
 // c11CallSeq is CallSeq without the verification yield points (instrumentation, no-ops without
